@@ -65,6 +65,8 @@ def run(repo: Repo, rep: Report, tier: str) -> None:
     _c11.run(repo, Only(rep, {"R11.5", "R11.7"}), tier)
     from ..core import helper_contracts as _hc2
     _hc2.report(repo, rep, "R09.6", _hc2.dataclass_fields_contract(repo), "mashumaro.core.meta.code.builder::CodeBuilder.dataclass_fields")
+    from ..core import helper_contracts as _hc3
+    _hc3.report(repo, rep, "R01.6", _hc3.type_param_collection_contract(repo), "mashumaro.core.meta.helpers::collect_type_params")
 
 _ADDENDUM = ' R03.6: Registry.get contract as for C02. Borrowed: R01.2 (parse_timezone sign), R11.5 / R11.7 (scalar fast path and Literal branches of the union / literal unpackers).'
 EXPLANATION += _ADDENDUM
@@ -72,3 +74,6 @@ LEVEL_TEXT += _ADDENDUM
 _ADD3 = " Borrowed: R09.6 (dataclass_fields: the nearest ancestor's Field wins; a bare re-annotation drops the inherited Field)."
 EXPLANATION += _ADD3
 LEVEL_TEXT += _ADD3
+_ADD7 = ' Borrowed: R01.6.'
+EXPLANATION += _ADD7
+LEVEL_TEXT += _ADD7
